@@ -402,6 +402,16 @@ Section L1DOrder.
     - intros t [x1 y1] [x2 y2] [H1 H2]. unfold tell_d1; cbn [fst snd] in *. apply tell_d_comm; assumption.
   Qed.
 
+  Corollary l1d_data_level_components s (l1 l2 : list (num * Y)) :
+    Pairwise related l1 -> Permutation l1 l2 ->
+    let s1 := fold_left tell1 l1 s in let s2 := fold_left tell1 l2 s in
+    data s1 = data s2 /\ pend s1 = pend s2 /\ nb s1 = nb s2 /\ nbc s1 = nbc s2 /\
+    bbx s1 = bbx s2 /\ bby s1 = bby s2 /\ sx s1 = sx s2 /\ sy s1 = sy s2.
+  Proof.
+    intros HW HP. pose proof (l1d_data_level_order_irrelevant s l1 l2 HW HP) as H.
+    unfold proj in H. inversion H. repeat split; assumption.
+  Qed.
+
   (* ---------------- batch path: data and pending ---------------- *)
   Definition dset1 d (p : num * Y) := dset (fst p) (snd p) d.
   Definition remove1 l (p : num * Y) := remove (fst p) l.
